@@ -301,6 +301,148 @@ Proof.
       assert (H2 : (rk k < rk i)%nat); [|lia]. eapply (Hr (OMsg k m)); eauto. rewrite Hpm. set_solver.
 Qed.
 
+(* ------------------------------------------------------------------ a process goes on with fewer channels (call, print) *)
+Lemma topo_cont c p pp pp' o' :
+  Topo c -> procs c !! p = Some pp -> pr_provs pp' = pr_provs pp ->
+  (forall i, i ∈ form_chans (pr_body0 pp') -> i ∈ form_chans (pr_body0 pp)) ->
+  Topo (Cfg (<[p := pp']> (procs c)) (chans c) o').
+Proof.
+  intros Ht Hp Hpv Hbody.
+  set (c' := Cfg (<[p := pp']> (procs c)) (chans c) o').
+  assert (Hobj' : forall ob, obj_in c' ob ->
+            match ob with
+            | OProc r rr => (r = p /\ rr = pp') \/ (r <> p /\ procs c !! r = Some rr)
+            | OMsg k' m' => obj_in c (OMsg k' m')
+            end).
+  { intros [r rr|k' m']; unfold c'; cbn; [|done].
+    intros H. apply lookup_insert_Some in H as [[<- <-]|[Hn H]]; [by left|right]. split; [congruence|done]. }
+  apply (topo_rewrite c c' [OProc p pp] [OProc p pp'] (fun _ => False)); try done.
+  - intros o Ho. apply elem_of_list_singleton in Ho as ->. exact Hp.
+  - intros [r rr|k' m'] Ho.
+    + destruct (decide (r = p)) as [->|Hn]; [left|right].
+      * cbn in Ho. rewrite Hp in Ho. injection Ho as <-. by apply elem_of_list_singleton.
+      * intros H. apply elem_of_list_singleton in H. congruence.
+    + right. intros H. apply elem_of_list_singleton in H. discriminate.
+  - intros ob Ho'. specialize (Hobj' ob Ho'). destruct ob as [r rr|k' m'].
+    + destruct Hobj' as [[-> ->]|[Hn H]]; [right; by apply elem_of_list_singleton|].
+      left. split; [exact H|]. intros Hx. apply elem_of_list_singleton in Hx. congruence.
+    + left. split; [exact Hobj'|]. intros Hx. apply elem_of_list_singleton in Hx. discriminate.
+  - intros [r rr|k' m'] Ho Hx; unfold c'; cbn; [|exact Ho].
+    cbn in Ho. rewrite lookup_insert_ne; [exact Ho|]. intros <-. apply Hx. apply elem_of_list_singleton.
+    rewrite Hp in Ho. by injection Ho as <-.
+  - intros ob Ho'. apply elem_of_list_singleton in Ho' as ->. unfold c'. cbn. apply lookup_insert.
+  - intros ob j Ho' Hj. apply elem_of_list_singleton in Ho' as ->. left. exists (OProc p pp).
+    split; [by apply elem_of_list_singleton|]. cbn in *. by rewrite <- Hpv.
+  - intros ob j Ho' Hj. apply elem_of_list_singleton in Ho' as ->. left. exists (OProc p pp).
+    split; [by apply elem_of_list_singleton|]. cbn in *. by apply Hbody.
+  - intros o1 o2 j H1 H2 _ _. apply elem_of_list_singleton in H1, H2. congruence.
+  - intros o1 o2 j H1 H2 _ _. apply elem_of_list_singleton in H1, H2. congruence.
+  - intros o j Ho Hj. apply elem_of_list_singleton in Ho as ->. left. exists (OProc p pp').
+    split; [by apply elem_of_list_singleton|]. cbn in *. by rewrite Hpv.
+  - intros k' st' Hk' Hcl'. left. exists st'. done.
+  - intros rk M Hr. exists rk, M. eapply rank_ok_same_dom; [| |exact Hr]; [done|].
+    intros ob k1 j Ho' Hk1 Hj. specialize (Hobj' ob Ho'). destruct Hr as [_ Hr]. destruct ob as [r rr|k' m'].
+    + destruct Hobj' as [[-> ->]|[_ H]]; [|eapply (Hr (OProc r rr)); eauto].
+      eapply (Hr (OProc p pp)); [exact Hp| |by apply Hbody]. cbn in *. by rewrite <- Hpv.
+    + eapply (Hr (OMsg k' m')); eauto.
+Qed.
+
+(* ------------------------------------------------------------------ cut: a child is spawned on a fresh channel *)
+Lemma topo_new c p pp kn cn child cb pb nx o' :
+  Topo c -> procs c !! p = Some pp -> chan cn = Some kn ->
+  chans c !! kn = None -> procs c !! child = None -> child <> p ->
+  (forall o, obj_in c o -> kn ∉ provides o /\ kn ∉ refs o) ->
+  (exists kp, cids_of (pr_provs pp) = [kp] /\ is_Some (chans c !! kp)) ->
+  (forall i, i ∈ form_chans cb -> i ∈ form_chans (pr_body0 pp)) ->
+  (forall i, i ∈ form_chans pb -> i ∈ form_chans (pr_body0 pp) \/ i = kn) ->
+  (forall i, i ∈ form_chans cb -> i ∈ form_chans pb -> False) ->
+  Topo (Cfg (<[p := Proc (pr_provs pp) pb nx]> (<[child := Proc [cn] cb 0]> (procs c)))
+            (<[kn := empty_chan]> (chans c)) o').
+Proof.
+  intros Ht Hp Hcn Hkn Hch Hcp Hfr (kp & Hkp & Hkpe) Hcb Hpb Hdisj.
+  set (P' := Proc (pr_provs pp) pb nx). set (C' := Proc [cn] cb 0).
+  set (c' := Cfg (<[p := P']> (<[child := C']> (procs c))) (<[kn := empty_chan]> (chans c)) o').
+  assert (Hobj' : forall ob, obj_in c' ob ->
+            match ob with
+            | OProc r rr => (r = p /\ rr = P') \/ (r = child /\ rr = C') \/ (r <> p /\ r <> child /\ procs c !! r = Some rr)
+            | OMsg k' m' => k' <> kn /\ obj_in c (OMsg k' m')
+            end).
+  { intros [r rr|k' m']; unfold c'; cbn.
+    - intros H. apply lookup_insert_Some in H as [[<- <-]|[Hn H]]; [by left|right].
+      apply lookup_insert_Some in H as [[<- <-]|[Hn' H]]; [by left|right]. split; [congruence|]. split; [congruence|done].
+    - intros (st' & H & Hbuf). apply lookup_insert_Some in H as [[<- <-]|[Hn H]]; [discriminate|].
+      split; [congruence|]. by exists st'. }
+  assert (Hcprov : cids_of [cn] = [kn]) by (cbn; by rewrite Hcn).
+  assert (HCp : provides (OProc child C') = [kn]) by (cbn; by rewrite Hcn).
+  assert (HPp : provides (OProc p P') = cids_of (pr_provs pp)) by done.
+  assert (HCr : refs (OProc child C') = form_chans cb) by done.
+  assert (HPr : refs (OProc p P') = form_chans pb) by done.
+  assert (HinY : forall o, o ∈ [OProc p P'; OProc child C'] <-> o = OProc p P' \/ o = OProc child C').
+  { intros o. rewrite elem_of_cons, elem_of_list_singleton. tauto. }
+  apply (topo_rewrite c c' [OProc p pp] [OProc p P'; OProc child C'] (fun k => k = kn)); try done.
+  - intros o Ho. apply elem_of_list_singleton in Ho as ->. exact Hp.
+  - intros [r rr|k' m'] Ho.
+    + destruct (decide (r = p)) as [->|Hn]; [left|right].
+      * cbn in Ho. rewrite Hp in Ho. injection Ho as <-. by apply elem_of_list_singleton.
+      * intros H. apply elem_of_list_singleton in H. congruence.
+    + right. intros H. apply elem_of_list_singleton in H. discriminate.
+  - intros ob Ho'. specialize (Hobj' ob Ho'). destruct ob as [r rr|k' m'].
+    + destruct Hobj' as [[-> ->]|[[-> ->]|(Hn & Hn' & H)]]; [right; apply HinY; by left|right; apply HinY; by right|].
+      left. split; [exact H|]. intros Hx. apply elem_of_list_singleton in Hx. congruence.
+    + destruct Hobj' as [_ H]. left. split; [exact H|]. intros Hx. apply elem_of_list_singleton in Hx. discriminate.
+  - intros [r rr|k' m'] Ho Hx; unfold c'; cbn.
+    + cbn in Ho. assert (r <> p).
+      { intros ->. apply Hx. apply elem_of_list_singleton. rewrite Hp in Ho. by injection Ho as <-. }
+      assert (r <> child) by (intros ->; congruence).
+      by rewrite !lookup_insert_ne.
+    + destruct Ho as (st' & H & Hbuf). exists st'. split; [|done]. rewrite lookup_insert_ne; [done|]. intros <-. congruence.
+  - intros ob Ho'. apply HinY in Ho' as [->| ->]; unfold c'; cbn.
+    + apply lookup_insert.
+    + rewrite lookup_insert_ne by done. apply lookup_insert.
+  - intros ob j Ho' Hj. apply HinY in Ho' as [->| ->].
+    + rewrite HPp in Hj. left. exists (OProc p pp). split; [by apply elem_of_list_singleton|done].
+    + rewrite HCp in Hj. right. by apply elem_of_list_singleton in Hj.
+  - intros ob j Ho' Hj. apply HinY in Ho' as [->| ->]; [rewrite HPr in Hj|rewrite HCr in Hj].
+    + destruct (Hpb j Hj) as [H|H]; [left|by right]. exists (OProc p pp). split; [by apply elem_of_list_singleton|done].
+    + left. exists (OProc p pp). split; [by apply elem_of_list_singleton|]. by apply Hcb.
+  - intros o1 o2 j H1 H2 Hj1 Hj2. apply HinY in H1 as [->| ->], H2 as [->| ->]; try done; exfalso.
+    + rewrite HPp in Hj1. rewrite HCp in Hj2. apply elem_of_list_singleton in Hj2 as ->. destruct (Hfr (OProc p pp) Hp) as [H _]. by apply H.
+    + rewrite HPp in Hj2. rewrite HCp in Hj1. apply elem_of_list_singleton in Hj1 as ->. destruct (Hfr (OProc p pp) Hp) as [H _]. by apply H.
+  - intros o1 o2 j H1 H2 Hj1 Hj2. apply HinY in H1 as [->| ->], H2 as [->| ->]; try done; exfalso.
+    + rewrite HPr in Hj1. rewrite HCr in Hj2. eauto.
+    + rewrite HPr in Hj2. rewrite HCr in Hj1. eauto.
+  - intros k0 o -> Ho. by apply Hfr.
+  - intros k0 ->. exact Hkn.
+  - intros o j Ho Hj. apply elem_of_list_singleton in Ho as ->. left. exists (OProc p P').
+    split; [apply HinY; by left|done].
+  - intros ob j Ho' Hj ->. exists (OProc child C'). split; [apply HinY; by right|]. rewrite HCp. set_solver.
+  - intros k' st' Hk' Hcl'. unfold c' in Hk'. cbn in Hk'. apply lookup_insert_Some in Hk' as [[<- <-]|[Hn Hk']]; [discriminate|].
+    left. exists st'. done.
+  - intros rk M [Hb Hr].
+    exists (fun j => if decide (j = kn) then (2 * rk kp + 1)%nat else (2 * rk j)%nat), (2 * M + 1)%nat. split.
+    + intros j Hj. unfold c' in Hj. cbn in Hj. destruct (decide (j = kn)) as [->|Hn].
+      * specialize (Hb kp Hkpe). lia.
+      * rewrite lookup_insert_ne in Hj by done. specialize (Hb j Hj). lia.
+    + assert (Hkpn : kp <> kn) by (intros ->; rewrite Hkn in Hkpe; by destruct Hkpe).
+      assert (Hold : forall o k1 j, obj_in c o -> k1 ∈ provides o -> j ∈ refs o ->
+                ((if decide (k1 = kn) then 2 * rk kp + 1 else 2 * rk k1) < (if decide (j = kn) then 2 * rk kp + 1 else 2 * rk j))%nat).
+      { intros o k1 j Ho Hk1 Hj. destruct (Hfr o Ho) as [Hf1 Hf2].
+        rewrite decide_False by (intros ->; done). rewrite decide_False by (intros ->; done).
+        specialize (Hr o k1 j Ho Hk1 Hj). lia. }
+      intros ob k1 j Ho' Hk1 Hj. specialize (Hobj' ob Ho'). destruct ob as [r rr|k' m'].
+      * destruct Hobj' as [[-> ->]|[[-> ->]|(_ & _ & H)]]; [| |eapply (Hold (OProc r rr)); eauto].
+        -- rewrite HPp in Hk1. rewrite HPr in Hj. rewrite Hkp in Hk1. apply elem_of_list_singleton in Hk1 as ->.
+           rewrite decide_False by done. destruct (Hpb j Hj) as [H| ->].
+           ++ rewrite decide_False by (intros ->; destruct (Hfr (OProc p pp) Hp) as [_ Hf]; by apply Hf).
+              assert (rk kp < rk j)%nat; [|lia]. eapply (Hr (OProc p pp)); eauto. cbn. rewrite Hkp. set_solver.
+           ++ rewrite decide_True by done. lia.
+        -- rewrite HCp in Hk1. rewrite HCr in Hj. apply elem_of_list_singleton in Hk1 as ->.
+           rewrite decide_True by done. apply Hcb in Hj.
+           rewrite decide_False by (intros ->; destruct (Hfr (OProc p pp) Hp) as [_ Hf]; by apply Hf).
+           assert (rk kp < rk j)%nat; [|lia]. eapply (Hr (OProc p pp)); eauto. cbn. rewrite Hkp. set_solver.
+      * destruct Hobj' as [_ H]. eapply (Hold (OMsg k' m')); eauto.
+Qed.
+
 Section Step.
 Variable D : tenv.
 Variable F : list fundef.
